@@ -51,6 +51,21 @@ Theorem C11_restart : forall P s k r,
    map k_child (kof (ORel k) s) = map fst (r_new r)).
 Proof. exact restart_reload. Qed.
 
+(* C11_restart by program counter (audit-2 M7): the same facts indexed by how far the Reload() has got, so
+   that they also speak about a restart to the EMPTY configuration (no child is ever started there):
+   once its stopAllRunnables has created the Stop workers they are exactly the entries of the old
+   configuration, last entry first (creation order; the Stop() calls run concurrently); once wg.Wait() has
+   returned every one of those Stop() calls has returned; the children it has launched are none before its
+   boot and exactly the new configuration, in order, after it *)
+Theorem C11_restart_by_pc : forall P s k r,
+  reach P s -> nth_error (reloaders s) k = Some r -> r_path r = PRestart ->
+  (spawned (r_pc r) = true -> map w_child (wof (ORel k) s) = map fst (rev (r_old r))) /\
+  (spawned (r_pc r) = false -> wof (ORel k) s = []) /\
+  (stopped (r_pc r) = true -> forallb wdone (wof (ORel k) s) = true) /\
+  (launched (r_pc r) = true -> map k_child (kof (ORel k) s) = map fst (r_new r)) /\
+  (launched (r_pc r) = false -> kof (ORel k) s = []).
+Proof. exact restart_reload_pc. Qed.
+
 (* C11_newest: whenever no Reload() is inside its critical section - in particular after every
    Reload() has returned, also with concurrent callers - the stored configuration is the value most
    recently returned by the callback *)
@@ -117,6 +132,7 @@ Proof. exact accept_sound. Qed.
 Print Assumptions C11_membership.
 Print Assumptions C11_in_place.
 Print Assumptions C11_restart.
+Print Assumptions C11_restart_by_pc.
 Print Assumptions C11_newest.
 Print Assumptions C11_failed_callback.
 Print Assumptions C11_failed_callback_step.
@@ -234,3 +250,19 @@ Example C11_monitor_clause13_needs_sequential : exists s,
   run (step ex_pool) init overlap_sched = Some s /\
   C11_holdsb ex_pool (obs_trace obs overlap_sched) = 13%N.
 Proof. eexists. split; vm_compute; reflexivity. Qed.
+
+(* all hypotheses of C11_restart_by_pc on a restart to the EMPTY configuration: [a] -> []; the old child has
+   been stopped and has finished, nothing is started, the composite is Running with no child *)
+Definition ex_empty_sched : list label :=
+  [LRunCall; LRunBegin; LBootLock ORun; LCb ORun (CbSome [(0, 0)]%N); LBootLaunch ORun; LToRunning; LKRun 0 0%N;
+   LReloadCall 0; LRlLock 0; LCb (ORel 0) (CbSome []);
+   LStopBegin (ORel 0); LWCall 0 0%N; LKExit 0 0%N None; LWUnblock 0; LWRet 0 0%N;
+   LStopCancel (ORel 0); LStopJoin (ORel 0); LRlSetCfg 0; LBootLock (ORel 0); LBootLaunch (ORel 0); LRlFinish 0; LRlRet 0].
+
+Example C11_restart_to_empty_nonvacuous : exists s r,
+  run (step ex_pool) init ex_empty_sched = Some s /\ nth_error (reloaders s) 0 = Some r /\
+  r_path r = PRestart /\ r_pc r = RDone /\ stopped (r_pc r) = true /\ launched (r_pc r) = true /\
+  r_old r = [(0, 0)]%N /\ r_new r = [] /\
+  map w_child (wof (ORel 0) s) = [0%N] /\ forallb wdone (wof (ORel 0) s) = true /\ kof (ORel 0) s = [] /\
+  forallb kdone (kids s) = true /\ fsm s = FRunning /\ cfg s = Some [] /\ gen s = 2.
+Proof. eexists. eexists. split; [vm_compute; reflexivity|]. vm_compute. repeat split. Qed.
